@@ -3,7 +3,7 @@ import Vgi.Model.RangeFetch
 Line protocol for C32 (stateless; one line = one call of `FetchWithParallelRangeRequests`).
 
 ```
-fetch res=x<hex> thr=<int> cs=<int> par=<int> maxfetch=<int> hedging=<0|1> maxhedges=<int>
+fetch res=x<hex>|gen:<len>:<a>:<b> thr=<int> cs=<int> par=<int> maxfetch=<int> hedging=<0|1> maxhedges=<int>
       head=<0|1> len=<int> ranges=<0|1> mode=<aggr|none> resp=<c:a:R,...|-> order=<c:a,...|->
       simple=<status>
   -> simple ok x<hex> | simple err | toolarge | ok x<hex> | err
@@ -85,8 +85,23 @@ def drain (p : Params) (aggr : Bool) (tbl : List (Att × Resp)) : Nat → St × 
       | none => st
       | some a => drain p aggr tbl fuel (deliver p aggr tbl st a)
 
+/-- `res=x<hex>` or `res=gen:<len>:<a>:<b>`: byte i of the resource is `(i / 4096) * a + b` (mod 256) —
+a compact way to hand over multi-megabyte resources. -/
+def parseRes (s : String) : Option Bytes :=
+  match s.splitOn ":" with
+  | ["gen", l, a, b] => match l.toNat?, a.toNat?, b.toNat? with
+    | some l, some a, some b =>
+      some (((List.range (l / 4096 + 1)).flatMap fun k => List.replicate 4096 (UInt8.ofNat (k * a + b))).take l)
+    | _, _, _ => none
+  | _ => parseHexArg s
+
+/-- Short results are printed in full, long ones as length + polynomial fingerprint. -/
+def showBytes (b : Bytes) : String :=
+  if b.length ≤ 256 then hexArg b
+  else s!"len={b.length} fp={b.foldl (fun h x => (h * 31 + x.toNat) % 1000000007) 7}"
+
 def doFetch (ws : List String) : Option String := do
-  let res ← (kv ws "res") >>= parseHexArg
+  let res ← (kv ws "res") >>= parseRes
   let thr ← (kv ws "thr") >>= String.toInt?
   let cs ← (kv ws "cs") >>= String.toInt?
   let par ← (kv ws "par") >>= String.toInt?
@@ -104,7 +119,7 @@ def doFetch (ws : List String) : Option String := do
   let c : Cfg := ⟨thr, cs, par, maxFetch, hedging, maxHedges⟩
   pure <| match plan c headOk len ranges with
     | .simple => match fetchSimple maxFetch simpleStatus res with
-      | some b => "simple ok " ++ hexArg b
+      | some b => "simple ok " ++ showBytes b
       | none => "simple err"
     | .tooLarge => "toolarge"
     | .parallel n csz =>
@@ -114,7 +129,7 @@ def doFetch (ws : List String) : Option String := do
       let st2 := drain p aggr tbl (2 * n + 2) st1
       if running st2.1 then "still-running"
       else match finish st2.1 with
-        | some b => "ok " ++ hexArg b
+        | some b => "ok " ++ showBytes b
         | none => "err"
 
 def step (st : Unit) (ws : List String) : Unit × String :=
